@@ -23,9 +23,13 @@ import (
 	"verif/kit"
 )
 
-func pipeline(n, b, bound int, filters bool) vexplore.Scenario {
+func pipeline(n, b, bound int, filters, header bool) vexplore.Scenario {
 	name := fmt.Sprintf("pipeline procs=%d blocks=%d filters=%v", n, b, filters)
-	file := pbfscen.File(b, true)
+	if !header {
+		// a scan resumed in the middle of a file: the stream starts with a data block
+		name += " no-header"
+	}
+	file := pbfscen.File(b, header)
 	enc := file.Encode()
 	want := file.Expected()
 	return vexplore.Scenario{Name: name, Family: name, Bound: bound, RacesAreFindings: true, MaxSteps: 100000,
@@ -115,16 +119,22 @@ func main() {
 			"non-vacuous = a later block's element was decoded before an earlier block's (filters on) ; distinct_nontrivial = distinct complete operation sequences among non-vacuous executions; " +
 			"states = execution-tree nodes, transitions = visible operations, every trace is an implementation trace")
 		r.Assume("vinst's rewrite of decode.go/scanner.go/decode_data.go preserves behaviour; sequentially consistent scheduler; races are judged on instrumented struct fields and package variables")
-		type cfg struct{ n, b, d int }
-		cfgs := []cfg{{1, 3, 2}, {2, 3, 3}, {3, 3, 2}, {12, 3, 1}, {2, 6, 1}}
+		type cfg struct {
+			n, b, d  int
+			nofilter bool
+			nohdr    bool
+		}
+		cfgs := []cfg{{n: 1, b: 3, d: 2}, {n: 2, b: 3, d: 3}, {n: 3, b: 3, d: 2}, {n: 12, b: 3, d: 1}, {n: 2, b: 6, d: 1},
+			{n: 2, b: 4, d: 1, nohdr: true}, {n: 3, b: 5, d: 1, nohdr: true}, {n: 1, b: 3, d: 1, nohdr: true}, {n: 2, b: 3, d: 2, nofilter: true}}
 		budget := 7 * time.Minute
 		if !r.Quick() {
-			cfgs = []cfg{{1, 3, 3}, {2, 3, 3}, {3, 3, 3}, {2, 6, 2}, {12, 3, 2}, {32, 3, 1}}
+			cfgs = []cfg{{n: 1, b: 3, d: 3}, {n: 2, b: 3, d: 3}, {n: 3, b: 3, d: 3}, {n: 2, b: 6, d: 2}, {n: 12, b: 3, d: 2}, {n: 32, b: 3, d: 1},
+				{n: 2, b: 4, d: 2, nohdr: true}, {n: 3, b: 5, d: 2, nohdr: true}, {n: 12, b: 4, d: 1, nohdr: true}, {n: 2, b: 3, d: 3, nofilter: true}, {n: 3, b: 4, d: 3, nofilter: true}}
 			budget = 40 * time.Minute
 		}
 		var scs []vexplore.Scenario
 		for _, c := range cfgs {
-			scs = append(scs, pipeline(c.n, c.b, c.d, true))
+			scs = append(scs, pipeline(c.n, c.b, c.d, !c.nofilter, !c.nohdr))
 		}
 		e := &vexplore.Explorer{R: r, Scenarios: scs}
 		e.Run(budget)
